@@ -298,3 +298,24 @@ Proof.
   eexists. split; [vm_compute; reflexivity|]. split; [reflexivity|].
   intro l. destruct l as [|i|]; vm_compute; reflexivity.
 Qed.
+
+(* ---- transport: when the wrapper tests with the queue's own serializer, every failing task's report reaches the caller *)
+Section TransportProofs.
+  Variable Ex : Type.
+  Variable pickles check : Ex -> bool.
+  Variable describe : Ex -> Ex.
+  Hypothesis describe_pickles : forall e, pickles (describe e) = true.
+
+  Theorem wrap_delivered : (forall e, check e = true -> pickles e = true) -> forall e, delivered Ex pickles check describe e = true.
+  Proof.
+    intros H e. unfold delivered, wrap. destruct (check e) eqn:E; [apply H; exact E | apply describe_pickles].
+  Qed.
+
+  (* a test that accepts more than the queue can carry (e.g. dill's) loses the report of exactly those exceptions *)
+  Theorem wrap_lost_iff e : delivered Ex pickles check describe e = false <-> (check e = true /\ pickles e = false).
+  Proof.
+    unfold delivered, wrap. destruct (check e) eqn:E.
+    - split; [intro H; split; [reflexivity | exact H] | intros [_ H]; exact H].
+    - rewrite describe_pickles. split; [discriminate | intros [H _]; discriminate].
+  Qed.
+End TransportProofs.
